@@ -1,6 +1,8 @@
 (* C03 — Circuit.statevector (Model/GridBackend.v) on the columns of the grid IS StandardBackend.statevector (Model/Backends.v: std)
-   on the same lists: on a non-empty rectangular list of columns with at least one row the two models perform literally the same
-   computation (kron-reduce per column, product from the left, one mat-vec); hence C01_std_spec's lemma gives the specification:
+   on the same lists: on a non-empty rectangular list of columns with at least one row whose first column holds a matrix
+   (scalar_col c0 = false; on two untouched leading columns the grid model answers TypeError for scalar @ scalar, a clause
+   Model/Backends.v does not have) the two models perform literally the same computation (kron-reduce per column, product from the
+   left, one mat-vec); hence C01_std_spec's lemma gives the specification:
    on well-formed columns the grid class returns a vector state_eq to layers_sem of the columns in order.
    Nothing of Proofs/Backends*.v is re-proved. *)
 From Coq Require Import List Bool Arith Lia Ring.
@@ -22,10 +24,15 @@ Notation layers_sem := (layers_sem R radd rmul).
 Definition std_vec (r : res (sv_out R)) : res (bits -> R) :=
   match r with Ok (OutVec s) => Ok s | Ok OutEye => Err IndexError | Err e => Err e end.
 
-Theorem grid_is_std n (c0 : list entry) rest psi : 1 <= n -> c0 <> [] -> Forall (fun c => length c = length c0) rest ->
+(* a well-formed column over at least one qubit holds a matrix *)
+Lemma wf_not_scalar n c : 1 <= n -> wf_layer R n c -> scalar_col R c = false.
+Proof. intros Hn H. destruct H as [|m A l H|m G l H|m G l H]; [lia| | |]; reflexivity. Qed.
+
+Theorem grid_is_std n (c0 : list entry) rest psi : 1 <= n -> c0 <> [] -> scalar_col R c0 = false ->
+  Forall (fun c => length c = length c0) rest ->
   grid_statevector_cols n (c0 :: rest) psi = std_vec (std n (c0 :: rest) psi).
 Proof.
-  intros Hn NE F. unfold GridBackend.grid_statevector_cols, GridBackend.grid_product. cbn [Backends.std].
+  intros Hn NE P1 F. unfold GridBackend.grid_statevector_cols, GridBackend.grid_product. rewrite P1. cbn [andb Backends.std].
   assert (E : forallb (fun l => length l =? length c0) rest = true).
   { apply forallb_forall. intros l Hl. rewrite Forall_forall in F. rewrite (F l Hl). apply Nat.eqb_refl. }
   rewrite E. cbn [negb]. destruct c0 as [|e0 c0]; [congruence|].
@@ -45,6 +52,7 @@ Proof.
   rewrite grid_is_std; auto.
   - destruct (std_spec R rO rI radd rmul rsub ropp Rth n (c0 :: rest) psi Hn NE W) as (out & E & S). rewrite E. cbn [std_vec]. eauto.
   - intros Z. subst c0. cbn in L0. lia.
+  - exact (wf_not_scalar n c0 Hn (Forall_inv W)).
   - eapply Forall_impl; [|exact (Forall_inv_tail W)]. intros c Hc. cbn beta. rewrite (wf_layer_length R n c Hc). auto.
 Qed.
 
